@@ -53,8 +53,8 @@ def run(tier, seed, replay=None):
         core.write_evidence(PROP, tier, seed, "proof", {"obligations": max(1, len(st.theorems)), "discharged": 0, "checker_cmd": "lake build",
                             "trusted_base": [], "explanation": "implementation or harness does not build"}, [], time.time() - t0, 1)
         return v.finish()
-    nprog = 60 if tier == "quick" else 400
-    per = 25 if tier == "quick" else 10 ** 9
+    nprog = 32 if tier == "quick" else 400
+    per = 16 if tier == "quick" else 10 ** 9
     if replay:
         rp = json.load(open(replay))
         cases = [rp["ops"][1:] if rp["ops"][0].startswith("sched") else rp["ops"]]
@@ -96,7 +96,7 @@ def run(tier, seed, replay=None):
            "theorems": st.discharged, "axioms": st.axioms, "broken": st.broken,
            "evaluations": res.runs, "distinct_nontrivial": len({tuple(c) for c in cases}),
            "rule": "fault enumeration in support of the proof: for each of the protocol histories (vlib/protos.py providers, first 40 events) the number N of "
-                   "allocations is measured, then the k-th allocation is failed for " + ("a sample of k (1,2,3,N and 25 random)" if tier == "quick" else "every k in 1..N") +
+                   "allocations is measured, then the k-th allocation is failed for " + ("a sample of k (1,2,3,N and 16 random)" if tier == "quick" else "every k in 1..N") +
                    "; each run ends with close + nng_fini and the allocator balance; distinct = distinct (program,k) pairs",
            "programs": len(programs), "allocation_points_total": sum(counts), "ops": res.ops, "event_histogram": res.ev_hist,
            "samples": [cases[0], cases[-1]] if cases else [], "judge_violations": len(res.judge_viol), "crashes": len(res.crashes)}
